@@ -167,7 +167,7 @@ def _compile(stmts: list[ast.stmt], files: str, folders: str, inv: dict[str, str
     raise TranslateError(f'line {s.lineno}: __delitem__: clean-up statement {ast.unparse(s)[:70]!r} not understood')
 
 
-def translate_del(fn: ast.FunctionDef) -> dict:
+def translate_del(fn: ast.FunctionDef, read_member: str = 'READ') -> dict:
     roles = _parts_roles(fn)
     inv = {v: k for k, v in roles.items()}
     al = _aliases(fn, roles)
@@ -178,8 +178,8 @@ def translate_del(fn: ast.FunctionDef) -> dict:
     folders, files = folders[0], files[0]
     body = fn_body(fn)
     # first statement: the writability check, before anything is touched
-    chk = bool(body) and isinstance(body[0], ast.Expr) and isinstance(body[0].value, ast.Call) and isinstance(body[0].value.func, ast.Attribute) \
-        and body[0].value.func.attr == '_check_writable' and is_name(body[0].value.func.value, 'self')
+    from translate import c13_api      # `self._check_writable()` or an inlined `if <not writable>: raise`
+    chk = bool(body) and c13_api._is_guard(body[0], c13_api.is_self, read_member)
     # locate the statement that pops the file: top level or inside the try whose handler re-raises KeyError
     idx = None
     keyerr = False
@@ -433,7 +433,9 @@ def translate() -> tuple[str, dict]:
     tree = ast.parse(src_text('vpk.py'))
     vpk = find_def(tree.body, ast.ClassDef, 'VPK')
     fns = {nm: find_def(vpk.body, ast.FunctionDef, nm) for nm in ('__getitem__', '__contains__', '__delitem__', 'new_file')}
-    d = translate_del(fns['__delitem__'])
+    om = find_def(tree.body, ast.ClassDef, 'OpenModes')
+    rm = [n.targets[0].id for n in om.body if isinstance(n, ast.Assign) and isinstance(n.value, ast.Constant) and n.value.value == 'r']
+    d = translate_del(fns['__delitem__'], rm[0] if rm else 'READ')
     cens = {nm: chains_ok(f) for nm, f in fns.items()}
     ins = translate_ins(fns['new_file'])
     side = {'delitem': d, 'new_file': ins, 'chains': {k: v[1] for k, v in cens.items()}, 'digests': {k: ast_digest(f) for k, f in fns.items()},
